@@ -81,6 +81,9 @@ func WorkerMain() {
 
 var HangDeadline = 20 * time.Second
 
+// BusyDeadline is how much longer a call whose goroutines are still moving may take before it counts as not terminating.
+var BusyDeadline = 70 * time.Second
+
 func watchdog(done chan struct{}, mu *sync.Mutex, out *bufio.Writer) {
 	select {
 	case <-done:
@@ -99,7 +102,14 @@ func watchdog(done chan struct{}, mu *sync.Mutex, out *bufio.Writer) {
 	if stripAddrs(a) == stripAddrs(b) {
 		res.Hang = "call did not return within " + HangDeadline.String() + " and its goroutines are blocked:\n" + allStacks()
 	} else {
-		res.Infra = "call slower than " + HangDeadline.String() + " but still making progress"
+		// still moving: a slow case or a loop that never ends. The cases are small (seconds at most), so a call that is
+		// still running after the long deadline is not going to end
+		select {
+		case <-done:
+			return
+		case <-time.After(BusyDeadline):
+		}
+		res.Hang = "call still running after " + (HangDeadline + BusyDeadline).String() + " (its goroutines keep moving: a loop that does not end):\n" + allStacks()
 	}
 	buf, _ := json.Marshal(res)
 	mu.Lock()
@@ -271,7 +281,7 @@ func (p *Pool) run(c *Case) *Result {
 	var got rd
 	select {
 	case got = <-ch:
-	case <-time.After(HangDeadline + 60*time.Second):
+	case <-time.After(HangDeadline + BusyDeadline + 30*time.Second):
 		p.cmd.Process.Signal(syscall.SIGQUIT)
 		time.Sleep(500 * time.Millisecond)
 		p.cmd.Process.Kill()
